@@ -6,6 +6,7 @@ import (
 	"bytes"
 	"fmt"
 	"math/rand/v2"
+	"net/netip"
 	"net/textproto"
 	"slices"
 	"strconv"
@@ -244,14 +245,99 @@ func pick[T any](r *rand.Rand, pool []T, lo, hi int) []T {
 	return out
 }
 
-func hostOf(h string) string {
-	switch h {
-	case "a":
-		return hostA
-	case "b":
-		return hostB
+// hostSpelling renders the host spelling ids of Forwarder.tla (HostDef).
+var hostSpelling = map[string]string{
+	"a": hostA, "aP": "origin-a.test:8081", "aC": "ORIGIN-A.Test:8080", "aCP": "Origin-A.TEST:8081", "aN": "origin-a.test",
+	"b": hostB,
+	"d": "origin-d.test", "dE": "origin-d.test:80", "dC": "Origin-D.Test", "dP": "origin-d.test:8080",
+	"i": "192.0.2.10:8080", "iP": "192.0.2.10:8081", "iO": "192.0.2.11:8080", "iN": "192.0.2.10", "iE": "192.0.2.10:80",
+	"v": "[2001:db8::1]:8080", "vP": "[2001:db8::1]:8081", "vC": "[2001:DB8:0:0::1]:8080",
+}
+
+func hostOf(h string) string { return hostSpelling[h] }
+
+// splitHost splits a host[:port] spelling; port is "" when the spelling has none.
+func splitHost(host string) (name, port string, bracket bool) {
+	if strings.HasPrefix(host, "[") {
+		if e := strings.IndexByte(host, ']'); e > 0 {
+			return host[1:e], strings.TrimPrefix(host[e+1:], ":"), true
+		}
 	}
-	return ""
+	if c := strings.LastIndexByte(host, ':'); c >= 0 {
+		return host[:c], host[c+1:], false
+	}
+	return host, "", false
+}
+
+func joinHost(name, port string, bracket bool) string {
+	if bracket {
+		name = "[" + name + "]"
+	}
+	if port == "" {
+		return name
+	}
+	return name + ":" + port
+}
+
+// originOf is the harness's own reading of which destination a host spelling names: the address (in canonical
+// form) or the case-folded domain name, and the port, 80 when none is written.  It does not use the code under test.
+func originOf(host string) (string, bool) {
+	name, port, _ := splitHost(host)
+	if name == "" {
+		return "", false
+	}
+	if port == "" {
+		port = "80"
+	}
+	n, err := strconv.ParseUint(port, 10, 16)
+	if err != nil {
+		return "", false
+	}
+	if ip, err := netip.ParseAddr(name); err == nil {
+		name = ip.Unmap().String()
+	} else {
+		name = strings.ToLower(name)
+	}
+	return fmt.Sprintf("%s|%d", name, n), true
+}
+
+// sameOrigin: both spellings name a destination and it is the same one.
+func sameOrigin(a, b string) bool {
+	oa, ok1 := originOf(a)
+	ob, ok2 := originOf(b)
+	return ok1 && ok2 && oa == ob
+}
+
+// otherPort: the same host on another port.
+func otherPort(host string) string {
+	name, port, br := splitHost(host)
+	if port == "8081" {
+		return joinHost(name, "8082", br)
+	}
+	return joinHost(name, "8081", br)
+}
+
+// otherCase: the same host with the case of every letter flipped (an IPv4 address has none).
+func otherCase(host string) string {
+	b := []byte(host)
+	for i, c := range b {
+		switch {
+		case c >= 'a' && c <= 'z':
+			b[i] = c - 32
+		case c >= 'A' && c <= 'Z':
+			b[i] = c + 32
+		}
+	}
+	return string(b)
+}
+
+// toggleDefaultPort: ":80" written out <-> left off (only meaningful for hosts on port 80).
+func toggleDefaultPort(host string) string {
+	name, port, br := splitHost(host)
+	if port == "" {
+		return joinHost(name, "80", br)
+	}
+	return joinHost(name, "", br)
 }
 
 // renderReq turns a request record into bytes and the expectation at the origin.
@@ -396,13 +482,18 @@ func renderReq(r *rand.Rand, a absReq, idx int, authOn bool) ([]byte, *wantMsg) 
 	return b.Bytes(), w
 }
 
-var statusOf = map[string]int{"100": 100, "103": 103, "200": 200, "404": 404, "204": 204, "304": 304, "301s": 301, "302o": 302, "307r": 307}
+var statusOf = map[string]int{"100": 100, "103": 103, "200": 200, "404": 404, "204": 204, "304": 304, "301s": 301, "302o": 302, "302p": 302, "302c": 302,
+	"302d": 302, "307r": 307}
+
+// elsewhere: redirects whose Location does not spell the request's Host (Forwarder.tla ElsewhereRedirects).
+var elsewhere = map[string]bool{"302o": true, "302p": true, "302c": true, "302d": true}
 var reasonOf = map[int]string{100: "Continue", 103: "Early Hints", 200: "OK", 404: "Not Found", 204: "No Content", 304: "Not Modified",
 	301: "Moved Permanently", 302: "Found", 307: "Temporary Redirect"}
 
 // renderResp turns a response record into the bytes the origin sends and the expectation at the client.
 // head: the response answers a HEAD request (no body bytes on the wire).
-func renderResp(r *rand.Rand, a absResp, idx int, head bool) ([]byte, *wantMsg) {
+// reqHost: the Host of the request it answers (redirect Locations are variants of it).
+func renderResp(r *rand.Rand, a absResp, idx int, head bool, reqHost string) ([]byte, *wantMsg) {
 	w := &wantMsg{idx: idx, abs: a}
 	w.marker = fmt.Sprintf("s%dx%s", idx, token(r, 10))
 	var b bytes.Buffer
@@ -425,11 +516,16 @@ func renderResp(r *rand.Rand, a absResp, idx int, head bool) ([]byte, *wantMsg) 
 	}
 	switch a.St {
 	case "301s":
-		f := field{"Location", "http://" + hostA + "/moved/" + token(r, 5)}
+		f := field{"Location", "http://" + reqHost + "/moved/" + token(r, 5)}
 		l.add(f.name, f.value)
 		w.keep = append(w.keep, f)
 	case "302o":
 		f := field{"Location", "http://" + hostOther + "/moved/" + token(r, 5)}
+		l.add(f.name, f.value)
+		w.keep = append(w.keep, f)
+	case "302p", "302c", "302d":
+		loc := map[string]func(string) string{"302p": otherPort, "302c": otherCase, "302d": toggleDefaultPort}[a.St](reqHost)
+		f := field{"Location", "http://" + loc + "/moved/" + token(r, 5)}
 		l.add(f.name, f.value)
 		w.keep = append(w.keep, f)
 	case "307r":
